@@ -208,6 +208,8 @@ def tree_case(ctx, i, terms, info):
                     ctx.oracle_fail("write-cap-visible-to-read-cap-holder", "a child write cap (or its writekey) occurs in what a read-cap holder obtains at %r" % (path,),
                                     case=dict(case, path=path), expected="absent", observed={"secret": sec, "in": s_[:200]})
                     break
+    # ---- ONE client that first walked the tree through the write cap and still holds every node object
+    same_client_case(ctx, i, root, real_dirs, case)
     # ---- positive control: the write-cap holder recovers every write cap
     recovered = set()
     stack = [root]
@@ -239,6 +241,56 @@ def tree_case(ctx, i, terms, info):
     # ---- model: walk one path through the read cap (and the same path through the write cap)
     if i < ctx.n(16, 300):
         path_model(ctx, i, r, t, root, root_ro, store, tbl, terms, info, case)
+
+
+def same_client_case(ctx, i, root, real_dirs, case):
+    """The node maker caches nodes; a node made from a write cap must never be handed out for the read cap."""
+    from allmydata.interfaces import IDirectoryNode
+    nm3, _ = D.make_nodemaker(ctx.rng("tree-same-client", i), store=_store_of(root))
+    alive = []
+    root_rw = nm3.create_from_cap(root.get_uri())
+    stack = [(root_rw, [])]
+    while stack:
+        node, path = stack.pop()
+        alive.append(node)
+        if IDirectoryNode.providedBy(node) and node.get_readonly_uri() in real_dirs:
+            for name, (child, md) in D.fire(node.list()).items():
+                stack.append((child, path + [name]))
+    n_rw = len([n for n in alive if n.get_write_uri()])
+    # (a) the same tree through the root's read cap, on the same client
+    root_ro = nm3.create_from_cap(root.get_readonly_uri())
+    stack = [(root_ro, [])]
+    reached = 0
+    while stack:
+        node, path = stack.pop()
+        reached += 1
+        obs = D.node_obs(node)
+        if obs[1] is not None or (obs[0] != "unknown" and not node.is_readonly()):
+            ctx.oracle_fail("descendant-of-readonly-root-is-writeable",
+                            "same client, after the tree was walked through its write cap and all nodes are still alive: node at %r "
+                            "reached from the read-only root has write authority (%r)" % (path, obs[1]),
+                            case=dict(case, path=path, same_client=True), expected=None, observed=obs[1])
+        if IDirectoryNode.providedBy(node) and node.get_readonly_uri() in real_dirs:
+            for name, (child, md) in D.fire(node.list()).items():
+                stack.append((child, path + [name]))
+    # (b) a read cap opened directly, and the 'no-write' diminishing, while the writeable node is alive
+    for node in alive:
+        ro = node.get_readonly_uri()
+        if not node.get_write_uri() or not ro or D.node_obs(node)[0] == "unknown":
+            continue
+        direct = nm3.create_from_cap(None, ro)
+        dim = root_rw._create_readonly_node(node, "x")
+        for what, n2 in (("create_from_cap(None, readcap)", direct), ("_create_readonly_node", dim)):
+            if n2.get_write_uri() is not None or not n2.is_readonly():
+                ctx.oracle_fail("readcap-opened-on-same-client-is-writeable",
+                                "%s returns a writeable node while the node made from the write cap is alive" % what,
+                                case=dict(case, readcap=ro, same_client=True), expected=None, observed=n2.get_write_uri())
+    ctx.count("same-client-nodes-alive-with-write-cap", n_rw)
+    ctx.count("same-client-nodes-reached-readonly", reached)
+
+
+def _store_of(dn):
+    return dn._nodemaker._verif_store
 
 
 def path_model(ctx, i, r, t, root, root_ro, store, tbl, terms, info, case):
